@@ -71,7 +71,7 @@ NON_PD3 = [((9, 10), (9, 10), (-9, 10)), ((4, 5), (4, 5), (-1, 2)), ((-7, 10), (
 
 # off-diagonal factors that add up to zero (in this order of positions the Cholesky factor is rational)
 CANCEL3 = [((4, 5), (-2, 3), (-2, 15)), ((4, 5), (-2, 15), (-2, 3)), ((-8, 17), (2, 3), (-10, 51)),
-           ((24, 25), (-8, 21), (-304, 525)), ((4, 5), (-8, 21), (-44, 105)), ((-4, 5), (2, 3), (2, 15))]
+           ((24, 25), (-8, 21), (-304, 525)), ((4, 5), (-8, 21), (-44, 105))]
 # the same with dyadic factors (exact cancellation in floating point; the factor is irrational: oracle only)
 CANCEL3_DYADIC = [((1, 2), (-1, 2), (0, 1)), ((1, 2), (-1, 4), (-1, 4)), ((-1, 2), (1, 4), (1, 4)), ((0, 1), (1, 4), (-1, 4)),
                   ((3, 4), (-3, 4), (0, 1)), ((-1, 4), (-1, 4), (1, 2))]
@@ -133,11 +133,26 @@ def gen_corr(rng, k):
     return "pd", out
 
 
+def equalize(rng, sources):
+    """distinct measurements with EQUAL central values (their identity, not their value, decides what is correlated)"""
+    singles = [s for s in sources if s["kind"] == "single"]
+    if len(singles) >= 2 and rng.random() < 0.3:
+        v = singles[0]["value"]
+        for s in (singles if rng.random() < 0.5 else singles[:2]):
+            s["value"] = v
+
+
 def gen_case(rng, seed):
     k = rng.choice([1, 2, 2, 2, 3, 3, 3])
-    sources = [mc.gen_source(rng, repeated_ok=True, positive_error=True) for _ in range(k)]
+    sources, _ = mc.gen_sources(rng, k, repeated_ok=True, positive_error=True)
+    equalize(rng, sources)
     small = any(s["kind"] == "repeated" for s in sources)
     kind, corr_pos = gen_corr(rng, k)
+    if kind.startswith("pd"):
+        # with a rational, non-dyadic Cholesky factor the draws around 2^30 are rounded at 1e-7: no large offsets there
+        sources, _ = mc.gen_sources(rng, k, repeated_ok=True, positive_error=True, allow_offset=False)
+        equalize(rng, sources)
+        small = any(s["kind"] == "repeated" for s in sources)
     # a division is only used where the draws are dyadic (no correlation applied): with a rational, non-dyadic factor a
     # denominator that is exactly 0 in Q is 1e-17 in floating point, i.e. a finite outcome (rounding, not modelled)
     allow_div = (not small) and not kind.startswith("pd") and rng.random() < 0.5
@@ -148,7 +163,8 @@ def gen_case(rng, seed):
             "g": rng.choice([4, 5, 6, 8] if small else [4, 6, 8, 12, 16]),
             "sources": sources, "corr": [], "corr_pos": corr_pos, "corr_kind": kind,
             "defs": mc.gen_defs(rng, k, allow_div=allow_div, depth=2 if (small or k == 3) else 3, require_all=True),
-            "method": rng.choice(["global", "own"]), "small": small}
+            "method": rng.choice(["global", "own", "global-str", "own-str"]), "small": small,
+            "pre_read": rng.random() < 0.4, "dirty": rng.random() < 0.25}
     if allow_div:
         case["okind"] = rng.choice(["coarse", "coarse", "uniform"])
     rv, re_, sa = ["read_value"], ["read_error"], ["samples"]
@@ -168,6 +184,8 @@ def gen_case(rng, seed):
                     ["recalc"], rv, re_, sa]
     elif r < 0.9:
         ops = [["set_size", ["int", rng.choice(sizes)]]] + ops[1:] + [["reset_size"], rv, re_]
+    if rng.random() < 0.3:      # another quantity over the same sources is simulated in between
+        ops.insert(rng.randint(1, len(ops)), ["sibling"])
     case["ops"] = ops
     return case
 
@@ -180,6 +198,16 @@ def features(case, run):
         tags.add("division")
     if any(s["kind"] == "repeated" for s in case["sources"]):
         tags.add("readings-source")
+    if case.get("pre_read") and len(case["defs"]) > 1:
+        tags.add("intermediate-read-before-use")
+    if case.get("dirty"):
+        tags.add("session-after-other-simulation")
+    big = max([abs(float.fromhex(v)) for v, _, _ in run["srcs"]] + [0.0])
+    if big and (big < 1e-6 or big > 1e6):
+        tags.add("scaled-data")
+    vals = [s["value"] for s in case["sources"] if s["kind"] == "single"]
+    if len(set(vals)) < len(vals):
+        tags.add("equal-central-values")
     size = None
     for o, (ob, w1, w2) in zip(case["ops"], run["obs"]):
         if ob[0] == "info":
@@ -204,9 +232,14 @@ def correspondence(ctx):
             cases_runs.append((c["case"], mc.run_case(c["case"])))
     seedbase = rng.getrandbits(48)
     n = ctx.n(400, 4000)
-    for i in range(n):
+    i = 0
+    while len(cases_runs) < n and i < 3 * n:
+        i += 1
         case = gen_case(rng, "c02-{}-{}".format(seedbase, i))
         run = mc.run_case(case)
+        if mc.ill_conditioned(case, run):
+            res.count("dropped:ill-conditioned")
+            continue
         cases_runs.append((case, run))
     for case, run in cases_runs:
         res.evaluations += 1
@@ -263,23 +296,26 @@ class DesignScript:
 
 
 class SameRowScript:
-    """every call of one draw returns the same dyadic offsets (so that the assignment of rows to sources is immaterial)"""
+    """every call of one simulation returns the same dyadic offsets (so that the assignment of rows to sources is
+    immaterial); the harness names the simulation that is about to run ([current]), different simulations get
+    different offsets"""
 
-    def __init__(self, seed, k, kind):
-        self.seed, self.k, self.kind, self.calls = seed, max(1, k), kind, []
+    def __init__(self, seed, kind):
+        self.seed, self.kind, self.calls, self.current = seed, kind, [], "start"
 
     def row(self, draw, n):
         return mc.gen_offsets(self.kind, random.Random("{}:{}".format(self.seed, draw)), n)
 
     def __call__(self, loc=0.0, scale=1.0, size=None):
         n = int(size)
-        arr = self.row(len(self.calls) // self.k, n)
+        arr = self.row(self.current, n)
         self.calls.append(arr)
         return np.array(arr, dtype=float)
 
 
-def close(a, b, tol=Fraction(1, 10 ** 8)):
-    return abs(a - b) <= tol * (abs(a) + abs(b)) + Fraction(1, 10 ** 10)
+def close(a, b, tol=Fraction(1, 10 ** 8), scale=Fraction(1)):
+    """relative comparison; the absolute slack is tied to the size of the data ([scale]), never a fixed number"""
+    return abs(a - b) <= tol * (abs(a) + abs(b)) + tol * scale / 1000
 
 
 def check_design(case):
@@ -333,10 +369,11 @@ def check_design(case):
         for j in range(k):
             r = Fraction(1) if i == j else (rho.get((i, j), Fraction(0)) if pd else Fraction(0))
             var += coef[i] * coef[j] * r * e[i] * e[j]
-    if not close(Fraction(value), mean):
+    sc = sum(abs(a) * (abs(x) + abs(u)) for a, x, u in zip(coef, v, e)) + abs(fr(case["const"])) or Fraction(1)
+    if not close(Fraction(value), mean, scale=sc):
         return "value {} differs from the mean {} of the draws centred at the central values".format(value, float(mean))
     got = Fraction(error) ** 2 * 7 / 8
-    if not close(got, var, Fraction(1, 10 ** 7)):
+    if not close(got, var, Fraction(1, 10 ** 7), sc * sc):
         return ("offsets with identity second moments: the draws have variance {} (ddof=0) but the stated model gives a' D C D a "
                 "= {} ({})".format(float(got), float(var),
                                    "correlations as set" if pd else "uncorrelated fallback"))
@@ -353,7 +390,8 @@ def gen_design_case(rng):
     for i, j, num, den in corr_pos:
         rho[(i, j)] = rho[(j, i)] = Fraction(num, den)
     # the covariance of the draws does not depend on the order of the sources: positions are used as creation indices
-    sources = [mc.gen_source(rng, repeated_ok=True, positive_error=True) for _ in range(k)]
+    sources, _ = mc.gen_sources(rng, k, repeated_ok=True, positive_error=True)
+    equalize(rng, sources)
     return {"sources": sources, "corr": corr_pos, "pd": minors_pd(k, rho),
             "coef": [fx(rng.choice([1.0, -1.0, 2.0, 0.5, -1.5, 3.0])) for _ in range(k)],
             "const": fx(rng.choice([0.0, 1.0, -2.5])), "size_mode": rng.choice(["global", "own"])}
@@ -363,8 +401,7 @@ def check_samerow(case):
     """uncorrelated sources, every source receives the same offsets: samples must be f(v_i + error_i * z_n), undefined
     outcomes dropped, value / error their mean and ddof-1 standard deviation"""
     q = mc._q()
-    k = len(mc.tree_vars(case["defs"][-1], case["defs"]))     # normal() is called once per source the formula uses
-    script = SameRowScript(case["seed"], k, case["okind"])
+    script = SameRowScript(case["seed"], case["okind"])
     with warnings.catch_warnings():
         warnings.simplefilter("ignore")
         with mc.patched_normal(script):
@@ -377,10 +414,21 @@ def check_samerow(case):
                 for d in case["defs"]:
                     objs.append(mc.build_value(d, meas, objs))
                 res = objs[-1]
-                N = case["g"]
+                N = case["own"] if case.get("own") else case["g"]
+                if case.get("pre_read"):
+                    # intermediate results are read (simulated, with the same sample size) BEFORE the final formula:
+                    # the final simulation must evaluate them on ITS joint draws, not reuse their buffered samples
+                    import qexpy.data.data as dt
+                    for j, o_ in enumerate(objs[:-1]):
+                        if isinstance(o_, dt.DerivedValue):
+                            script.current = "intermediate{}".format(j)
+                            if case.get("own"):
+                                o_.mc.sample_size = case["own"]
+                            _ = o_.value, o_.error
+                script.current = "warm-up"
                 if case.get("own"):
                     res.mc.sample_size = case["own"]
-                    N = case["own"]
+                script.current = "final"
                 try:
                     value, error = res.value, res.error
                     S = [float(x) for x in res.mc.samples()]
@@ -391,8 +439,7 @@ def check_samerow(case):
                 sd = [Fraction(float(m.std)) for m in meas]
             finally:
                 mc.reset_globals()
-    draw = (len(script.calls) // k) - 1
-    row = [Fraction(z) for z in script.row(draw, N)]
+    row = [Fraction(z) for z in script.row("final", N)]
     if len(script.calls[-1]) != N:
         return "the last simulation drew {} offsets per source, configured size is {}".format(len(script.calls[-1]), N)
     want = []
@@ -404,8 +451,12 @@ def check_samerow(case):
         return "the retrievable samples contain a non-finite outcome"
     if len(S) != len(want):
         return "{} samples retrieved, {} of the {} draws are defined".format(len(S), len(want), N)
+    sc = max([abs(y) for y in want] + [Fraction(0)]) or Fraction(1)
+    E = mc.rounding_units(case)
+    if math.isfinite(E):
+        sc = max(sc, Fraction(E) * 10)      # ill-conditioned formulas: the slack follows the magnitudes inside the formula
     for a, b in zip(S, want):
-        if not close(Fraction(a), b):
+        if not close(Fraction(a), b, scale=sc):
             alt = None
             if any(s != ee for s, ee in zip(sd, e)):
                 alt = "the spread of the readings instead of the uncertainty?"
@@ -415,9 +466,9 @@ def check_samerow(case):
         m = sum(want) / len(want)
         var = sum((y - m) ** 2 for y in want) / (len(want) - 1)
         vo, eo = mc.num_obs(value), mc.num_obs(error)
-        if vo is None or not close(fr(vo), m):
+        if vo is None or not close(fr(vo), m, scale=sc):
             return "value {} is not the mean {} of the {} finite outcomes".format(value, float(m), len(want))
-        if eo is None or not close(fr(eo) ** 2, var, Fraction(1, 10 ** 7)):
+        if eo is None or not close(fr(eo) ** 2, var, Fraction(1, 10 ** 7), sc * sc):
             return "uncertainty {} is not the sample standard deviation (ddof=1) {} of the {} finite outcomes".format(
                 error, math.sqrt(var), len(want))
     return None
@@ -428,9 +479,13 @@ def gen_samerow_case(rng, seed):
     allow_div = rng.random() < 0.4
     case = {"seed": seed, "okind": "coarse" if allow_div else rng.choice(["uniform", "two", "peak"]),
             "g": rng.choice([6, 10, 16, 40]),
-            "sources": [mc.gen_source(rng, repeated_ok=True, positive_error=True) for _ in range(k)],
+            "sources": mc.gen_sources(rng, k, repeated_ok=True, positive_error=True)[0],
             "defs": mc.gen_defs(rng, k, allow_div=allow_div, depth=3, require_all=False),
-            "own": rng.choice([None, None, 7, 25])}
+            "own": rng.choice([None, None, 7, 25]), "pre_read": rng.random() < 0.5}
+    if case["pre_read"] and len(case["defs"]) == 1 and rng.random() < 0.7:
+        # make sure there IS an intermediate result that shares a source with the final formula
+        inner = case["defs"][0]
+        case["defs"] = [inner, [rng.choice(["sub", "add", "mul"]), ["ref", 0], ["var", rng.randrange(k)]]]
     return case
 
 
@@ -554,8 +609,13 @@ def check_statistical(case):
 
 def gen_stat_case(rng):
     k = rng.choice([1, 2, 3, 3])
+    def pd_(cp):
+        rho = {}
+        for i, j, num, den in cp:
+            rho[(i, j)] = rho[(j, i)] = Fraction(num, den)
+        return minors_pd(k, rho)
     kind, corr_pos = gen_corr(rng, k)
-    while kind == "not-pd":
+    while not pd_(corr_pos):
         kind, corr_pos = gen_corr(rng, k)
     for _ in range(30):
         defs = mc.gen_defs(rng, k, allow_div=False, depth=2, require_all=True)
@@ -614,7 +674,9 @@ def check_sizes(case):
                         xs = [Fraction(x) for x in S]
                         m = sum(xs) / len(xs)
                         var = sum((x - m) ** 2 for x in xs) / (len(xs) - 1)
-                        if not close(Fraction(value), m) or not close(Fraction(error) ** 2, var, Fraction(1, 10 ** 7)):
+                        sc = max(abs(x) for x in xs) or Fraction(1)
+                        if not close(Fraction(value), m, scale=sc) or \
+                                not close(Fraction(error) ** 2, var, Fraction(1, 10 ** 7), sc * sc):
                             return "step {} {}: value / uncertainty are not the mean / ddof-1 deviation of the {} draws".format(
                                 idx, st, len(S))
             finally:
@@ -651,7 +713,7 @@ def gen_sizes_case(rng, seed):
                 steps.append(["reset"])
             else:
                 steps.append(["recalc"])
-    return {"seed": seed, "g": g0, "sources": [mc.gen_source(rng, repeated_ok=False, positive_error=True) for _ in range(k)],
+    return {"seed": seed, "g": g0, "sources": mc.gen_sources(rng, k, repeated_ok=False, positive_error=True)[0],
             "defs": mc.gen_defs(rng, k, allow_div=False, depth=2, require_all=False), "steps": steps}
 
 
